@@ -1132,6 +1132,11 @@ def c18(scn):
     # exact circumcentric shares
     share = [F(0)] * npts
     total = F(0)
+    # rounding allowance: the code takes the area from a square root of a Heron-type expression and
+    # divides by it; for a needle triangle (condition kappa = sum of squared edges / (4 area)) the
+    # relative error of its shares grows like kappa^2 (measured: error / (value * eps) ~ kappa^2 / 3)
+    tol_node = [F(0)] * npts
+    tol_total = F(0)
     for tr in tris:
         P = [(F(pts[v][0]), F(pts[v][1])) for v in tr]
         cross = (P[1][0] - P[0][0]) * (P[2][1] - P[0][1]) - (P[1][1] - P[0][1]) * (P[2][0] - P[0][0])
@@ -1139,6 +1144,18 @@ def c18(scn):
         total += A
         if A == 0:
             continue
+        e2sum = sum((P[(k + 1) % 3][0] - P[(k + 2) % 3][0]) ** 2 + (P[(k + 1) % 3][1] - P[(k + 2) % 3][1]) ** 2 for k in range(3))
+        kappa = e2sum / (4 * A)
+        allow = F(256 * EPS) * (1 + kappa * kappa)
+        wabs = F(0)
+        for k in range(3):
+            a_, b_ = (k + 1) % 3, (k + 2) % 3
+            e2 = (P[a_][0] - P[b_][0]) ** 2 + (P[a_][1] - P[b_][1]) ** 2
+            dot = (P[a_][0] - P[k][0]) * (P[b_][0] - P[k][0]) + (P[a_][1] - P[k][1]) * (P[b_][1] - P[k][1])
+            wabs += abs(e2 * dot / (2 * A) / 8)
+        for v in tr:
+            tol_node[v] += (2 * wabs + A) * allow
+        tol_total += (2 * wabs + A) * allow
         for k in range(3):
             # edge opposite to vertex k: between the two others; cot(angle at k) = dot/(2A)
             a_, b_ = (k + 1) % 3, (k + 2) % 3
@@ -1182,16 +1199,14 @@ def c18(scn):
             bad = [i for i in range(npts) if status[i] != want[i]]
             fails.append(("mesh_boundary_iff_single", "nodes %s: status differs from 'on an edge of exactly one triangle'" % bad[:6]))
     if areas is not None and len(areas) == npts:
-        scale = sum(abs(s_) for s_ in share) + total
-        tol = F(1e-9) * scale + F(1e-300)
         tot = sum(F(a) for i, a in enumerate(areas) if nb[i] or share[i] != 0)
-        if abs(tot - total) > tol:
+        if abs(tot - total) > tol_total + F(1e-300):
             fails.append(("mesh_areas_sum", "node areas sum to %r, the triangles cover %r" % (float(tot), float(total))))
         for i in range(npts):
             if not nb[i] and share[i] == 0:
                 if areas[i] != DBL_MIN:
                     fails.append(("mesh_isolated_area", "isolated node %d has area %r" % (i, areas[i])))
-            elif abs(F(areas[i]) - share[i]) > tol:
+            elif abs(F(areas[i]) - share[i]) > tol_node[i] + F(1e-300):
                 fails.append(("mesh_node_share", "node %d: area %r, circumcentric share %r" % (i, areas[i], float(share[i]))))
                 break
     return fails[:20]
